@@ -45,6 +45,19 @@ construct_sub_strides(const SrcMapping &src_mapping,
 }
 } // namespace detail
 
+namespace detail {
+// offset of the sub view: one-past-the-end of the source if any slice starts at
+// the end of its extent (empty slice), the mapped start otherwise
+template <class Mapping, size_t... Idx, class... Slices>
+MDSPAN_INLINE_FUNCTION
+constexpr typename Mapping::index_type
+sub_offset(const Mapping &m, std::index_sequence<Idx...>, const Slices &... slices) {
+  using index_type = typename Mapping::index_type;
+  const bool at_end = (... || (static_cast<index_type>(first_of(slices)) == m.extents().extent(Idx)));
+  return at_end ? m.required_span_size() : m(first_of(slices)...);
+}
+} // namespace detail
+
 //**********************************
 // layout_left submdspan_mapping
 //*********************************
@@ -115,7 +128,7 @@ layout_left::mapping<Extents>::submdspan_mapping_impl(SliceSpecifiers... slices)
     // layout_left case
     return submdspan_mapping_result<dst_mapping_t>{
         dst_mapping_t(dst_ext),
-        static_cast<size_t>(this->operator()(detail::first_of(slices)...))};
+        static_cast<size_t>(detail::sub_offset(*this, std::make_index_sequence<extents_type::rank()>(), slices...))};
   } else {
     // layout_stride case
     auto inv_map = detail::inv_map_rank(
@@ -132,7 +145,7 @@ layout_left::mapping<Extents>::submdspan_mapping_impl(SliceSpecifiers... slices)
     #else
                                    std::tuple{detail::stride_of(slices)...})),
     #endif
-        static_cast<size_t>(this->operator()(detail::first_of(slices)...))};
+        static_cast<size_t>(detail::sub_offset(*this, std::make_index_sequence<extents_type::rank()>(), slices...))};
   }
 #if defined(__NVCC__) && !defined(__CUDA_ARCH__) && defined(__GNUC__)
   __builtin_unreachable();
@@ -222,7 +235,7 @@ layout_right::mapping<Extents>::submdspan_mapping_impl(
     // layout_right case
     return submdspan_mapping_result<dst_mapping_t>{
         dst_mapping_t(dst_ext),
-        static_cast<size_t>(this->operator()(detail::first_of(slices)...))};
+        static_cast<size_t>(detail::sub_offset(*this, std::make_index_sequence<extents_type::rank()>(), slices...))};
   } else {
     // layout_stride case
     auto inv_map = detail::inv_map_rank(
@@ -239,7 +252,7 @@ layout_right::mapping<Extents>::submdspan_mapping_impl(
     #else
                                    std::tuple{detail::stride_of(slices)...})),
     #endif
-        static_cast<size_t>(this->operator()(detail::first_of(slices)...))};
+        static_cast<size_t>(detail::sub_offset(*this, std::make_index_sequence<extents_type::rank()>(), slices...))};
   }
 #if defined(__NVCC__) && !defined(__CUDA_ARCH__) && defined(__GNUC__)
   __builtin_unreachable();
@@ -283,7 +296,7 @@ layout_stride::mapping<Extents>::submdspan_mapping_impl(
 #else
                                  std::tuple(detail::stride_of(slices)...))),
 #endif
-      static_cast<size_t>(this->operator()(detail::first_of(slices)...))};
+      static_cast<size_t>(detail::sub_offset(*this, std::make_index_sequence<extents_type::rank()>(), slices...))};
 }
 
 } // namespace MDSPAN_IMPL_STANDARD_NAMESPACE
